@@ -281,8 +281,19 @@ def _explore(driver, modname, pid, tier, seed, jobs, tmpbase, t0, only):
     else:
         # import the library once in the parent so forked workers share it
         _worker_init(modname, tmpbase)
-        with ctx.Pool(jobs, initializer=_worker_init, initargs=(modname, tmpbase), maxtasksperchild=None) as pool:
-            for idx, acc, dt in pool.imap_unordered(_run_one, [(i, specs[i], timeout) for i in order], chunksize=1):
+        # a driver whose shards leave garbage behind in the library's module-level registries asks for fresh workers
+        per_child = getattr(driver, "MAX_TASKS_PER_CHILD", None)
+        with ctx.Pool(jobs, initializer=_worker_init, initargs=(modname, tmpbase), maxtasksperchild=per_child) as pool:
+            it = pool.imap_unordered(_run_one, [(i, specs[i], timeout) for i in order], chunksize=1)
+            for _ in range(n):
+                try:
+                    # every shard is bounded by its own timeout: no result at all for longer than that means a worker was
+                    # lost (killed from outside, out of memory) and its shard will never report
+                    idx, acc, dt = it.next(timeout=timeout + 300)
+                except mp.TimeoutError:
+                    print(f"HARNESS-ERROR: property={pid} no shard reported for {timeout + 300}s: a worker process was lost; nothing is claimed by this run")
+                    pool.terminate()
+                    return 2
                 total.merge(acc)
                 slow.append((dt, idx))
     wall = time.time() - t0
